@@ -330,6 +330,40 @@ def r_stable(c):
         c.check(not bad, "R18-STABLE", qn, "no-process-dependent-digest", m.loc(mi, fd),
                 "hash()/id()/repr() feeds a persistent key: it differs between "
                 f"processes ({m.frag(bad[0], 40) if bad else ''})")
+    # updaters for unordered containers: whatever is fed element by element must be
+    # fed in an order that does not depend on the hash seed
+    for mi, fd in m.all_functions():
+        if fd.name not in ("update_for_frozenset", "update_for_set", "update_for_FrozenSet",
+                           "update_for_constantdict", "update_for_dict",
+                           "update_for_frozendict", "update_for_Map"):
+            continue
+        if len(fd.args.args) < 3:
+            continue
+        key = fd.args.args[2].arg
+        qn = m.qualname(fd).replace("pytato.", "", 1)
+        bad = []
+        for x in ast.walk(fd):
+            it = None
+            if isinstance(x, ast.For):
+                it = x.iter
+            elif isinstance(x, ast.comprehension):
+                it = x.iter
+            if it is None:
+                continue
+            raw = ast.unparse(it)
+            if raw in (key, f"{key}.items()", f"{key}.keys()", f"{key}.values()",
+                       f"iter({key})", f"list({key})", f"tuple({key})"):
+                # a comprehension that is the sole argument of sorted()/frozenset() is fine
+                par = getattr(x, "_parent", None)
+                gp = getattr(par, "_parent", None) if par is not None else None
+                if isinstance(x, ast.comprehension) and isinstance(gp, ast.Call) \
+                        and ast.unparse(gp.func) in ("sorted", "frozenset", "set", "sum"):
+                    continue
+                bad.append(x)
+        c.check(not bad, "R18-STABLE", qn, "unordered-key-fed-in-a-stable-order", m.loc(mi, fd),
+                f"the updater iterates its unordered key `{key}` directly and feeds the "
+                "elements in iteration order: the key depends on PYTHONHASHSEED (every "
+                "branch counts, also a 'small set' fast path)")
     sites = [s for s in scan(m, ["pytato.analysis", "pytato.reductions", "pytato.tags",
                                  "pytato.scalar_expr"])
              if ("update_persistent_hash" in s.func or "update_for_" in s.func)]
@@ -353,6 +387,40 @@ def r_stable(c):
             "key, __hash__ and __eq__ of stateless reductions no longer all go by type")
 
 
+def r_no_dynamic_attrs(c):
+    """the persistent key (and the cached hash) of a node are looked up with
+    getattr(obj, "_pytools_persistent_hash_digest" / "_hash_value"): a class of the
+    expression tree that answers unknown attributes dynamically (__getattr__
+    forwarding to a wrapped array) hands out the wrapped object's digest as its own"""
+    m = c.model
+    n = 0
+    roots = [k for k in concrete_kinds(m)]
+    seen = set()
+    work = list(roots)
+    while work:
+        k = work.pop()
+        if k in seen or k not in m.classes:
+            continue
+        seen.add(k)
+        for b in m.mro(k):
+            if b in m.classes and b not in seen:
+                work.append(b)
+        if m.is_dataclass(k):
+            for f, (ann, _d, _kw, defcls) in m.fields(k).items():
+                work += list(_ann_classes(m, ann, m.classes[defcls].module.name))
+    for k in sorted(seen):
+        ci = m.classes[k]
+        n += 1
+        dyn = [mn for mn in ("__getattr__", "__getattribute__") if mn in ci.methods]
+        c.check(not dyn, "R18-CLOSURE", short(k), "no-dynamic-attribute-lookup",
+                m.loc(ci.module, ci.methods[dyn[0]] if dyn else ci.node),
+                f"{short(k)} defines {dyn}: getattr(node, '_pytools_persistent_hash_digest') "
+                "can be answered by another object's cached digest, so the node is keyed "
+                "like the array it wraps")
+    if n < 40:
+        raise AnalysisError(f"only {n} classes of the expression tree scanned (floor 40)")
+
+
 def r_pickle(c):
     from pta.rules.c04 import r_pickle as r04
     before = len(c.obs)
@@ -363,7 +431,7 @@ def r_pickle(c):
 
 SPEC = Spec(
     prop="C18",
-    rules=[r_ndarray, r_closure, r_stable, r_pickle],
+    rules=[r_ndarray, r_closure, r_stable, r_pickle, r_no_dynamic_attrs],
     floors={"R18-NDARRAY": 5, "R18-CLOSURE": 35, "R18-STABLE": 5, "R18-PICKLE": 5},
     explanation=(
         "R18-NDARRAY: the attributes of the wrapped array that flow into the key "
@@ -375,7 +443,11 @@ SPEC = Spec(
         "of field annotations starting from every node kind is computed; every "
         "reachable repository class is a dataclass (keyed field by field by "
         "pytools), an enum, or defines update_persistent_hash feeding all its "
-        "compared fields whole (not only the values or only the keys of a mapping). R18-STABLE: no hash()/id()/repr() and no unordered iteration in "
+        "compared fields whole (not only the values or only the keys of a mapping); "
+        "no class of the expression tree defines __getattr__/__getattribute__ "
+        "(the cached digest is looked up with getattr). Numpy integers are keyed "
+        "like the Python int they equal. R18-STABLE: updaters for unordered "
+        "containers do not feed their key in iteration order; no hash()/id()/repr() and no unordered iteration in "
         "any key updater; updaters write no class-level/global state; stateless "
         "reductions key/hash/compare by type. "
         "R18-PICKLE: the cached hash is not part of the pickled state (shared with "
